@@ -7,7 +7,8 @@
    computes the tree functions of model/RelEditTree.v on any tree), RelLiveP.v (those functions on
    the trees of the live layouts of model/RelLive.v), RelLiveStepP.v (entries, contents),
    RelLiveWfP.v (well-formedness, totality), RelLiveNormP.v (the bridges to C10's fields),
-   RelLiveHistP.v (one operation, histories, re-read).
+   RelLiveHistP.v (one operation, histories, re-read), RelEditParsedP.v + RelLiveParsedP.v (operands
+   obtained by parsing).
 
    The model (model/RelEdit.v) is the editing API of debian-control/src/lossless/relations.rs
    over a store of trees with re-based handles (rowan's red layer as the code experiences it);
@@ -31,7 +32,9 @@
      variables) and the empty field, for all twelve operations (push / insert / replace /
      remove_entry / Entry::push / Entry::replace / remove_relation / set_version /
      drop_constraint / set_archqual, and set_architectures / add_profile), operands built by
-     Entry::from(vec![Relation::new(..)]) / Relation::new with identifier texts: section 1b.
+     Entry::from(vec![Relation::new(..)]) / Relation::new with identifier texts (section 1b) or
+     obtained by parsing the text of any well-formed entry / relation with Entry::from_str /
+     Relation::from_str (section 1c; the two kinds mixed freely in a history).
      One operation (C11_any_step, C11_any_step_tree, C11_any_field_step): the register machine,
      started with the tree of the field in the root register, does not panic; the root then holds
      the tree of the layout the abstract operation [a_op] produces; that layout is well-formed;
@@ -53,12 +56,11 @@
      path of any tree (section 4), and the machine = tree function theorem on any tree
      (C11_any_machine_step).
    * NOT PROVED — what remains of C11_full (covered by the rel-edit stream and its oracle on
-     every run): (a) operands built by parsing (Entry::from_str / Relation::from_str: the handle
-     then points INTO a parsed tree) and by RelationBuilder (qualifier, architectures, profiles
-     in the operand); the tree-level and layout-level theorems (RelLiveP.insert_commute,
-     replace_commute, epush_commute, dressed_commute; RelLiveWfP) are already stated for an
-     arbitrary well-formed operand layout, what is missing is the store level for a non-root
-     operand handle and the plumbing of such operands through [aop]/[compile];
+     every run): (a) operands built by RelationBuilder / From<lossy::Relation> (qualifier,
+     architectures, profiles added to a relation that is the root of its own tree: the
+     re-rooting tail of set_version & co. then takes its parentless branch) and Entry::new +
+     push; the layers above the store are already stated for an arbitrary well-formed operand
+     layout;
      (b) C11_full quantifies over every text that PARSES without error; section 1b quantifies
      over the renderings of well-formed fields (C10 proves wf field => parses without error to
      rtree_of; the converse, that nothing else parses without error, is not proved);
@@ -68,7 +70,7 @@
      (d) handles obtained earlier than the last mutation (finding c11-handle-after-rebuild). *)
 From V.model Require Import Base RelLex RelParse RelAcc RelGrammar RelEdit RelEditSpec RelEditTree RelLive.
 From V.proofs Require Import BaseP RelEditP RelEditStP RelEditHistP RelEditReparseP RelEditFullP RelEditRefuteP.
-From V.proofs Require Import RelEditTreeP RelEditReplaceP RelLiveP RelLiveStepP RelLiveWfP RelLiveNormP RelLiveHistP.
+From V.proofs Require Import RelEditTreeP RelEditReplaceP RelEditParsedP RelLiveP RelLiveStepP RelLiveWfP RelLiveNormP RelLiveHistP RelLiveParsedP.
 
 (* the whole property, as a statement about a variant of the code (model/RelEditSpec.v) *)
 Definition C11_partial_note : Prop := C11_full fixed.
@@ -395,6 +397,89 @@ Check C11_any_machine_step : forall o T T' st,
   exists st', run_ops fixed (compile o) st = Ok st' /\ holds st' T'.
 Print Assumptions C11_any_machine_step.
 
+(* 1c. Operands obtained by PARSING (Entry::from_str / Relation::from_str of the text of any
+   well-formed entry / relation: the operand handle points INTO the parsed tree, and an edit that
+   attaches it detaches it from there first), model/RelLive.v [pop], [pcompile], [a_pop], [pxstep];
+   [gop] = either kind of operand. *)
+(* the store level on ANY tree: parse the operand, obtain the handle into the parsed tree, run the operation = the tree function tt_op with the operand's node *)
+Theorem C11_any_parsed_machine_step : forall o T T' st,
+  poperands_ok o = true -> preplace_ready o T -> holds st T -> tt_op (ptop o) T = Ok T' ->
+  exists st', run_ops fixed (pcompile o) st = Ok st' /\ holds st' T'.
+Proof. exact pop_step_tree. Qed.
+Check C11_any_parsed_machine_step : forall o T T' st,
+  poperands_ok o = true -> preplace_ready o T -> holds st T -> tt_op (ptop o) T = Ok T' ->
+  exists st', run_ops fixed (pcompile o) st = Ok st' /\ holds st' T'.
+Print Assumptions C11_any_parsed_machine_step.
+
+(* (1) one operation with either kind of operand on ANY well-formed live layout *)
+Theorem C11_any_mixed_step : forall b o l st, lwf b l = true -> goperands_ok o = true ->
+  g_in_range (fst (lcontent l)) o = true -> holds st (ltree l) ->
+  exists l' st', g_op o l = Some l' /\
+                 run_ops fixed (gcompile o) st = Ok st' /\ holds st' (ltree l') /\
+                 lwf b l' = true /\
+                 lcontent l' = (gxstep (fst (lcontent l)) o, snd (lcontent l)).
+Proof. exact g_step. Qed.
+Check C11_any_mixed_step : forall b o l st, lwf b l = true -> goperands_ok o = true ->
+  g_in_range (fst (lcontent l)) o = true -> holds st (ltree l) ->
+  exists l' st', g_op o l = Some l' /\
+                 run_ops fixed (gcompile o) st = Ok st' /\ holds st' (ltree l') /\
+                 lwf b l' = true /\
+                 lcontent l' = (gxstep (fst (lcontent l)) o, snd (lcontent l)).
+Print Assumptions C11_any_mixed_step.
+
+(* (2)+(3) histories mixing constructor-built and parsed operands, from any well-formed field, with the re-read *)
+Theorem C11_any_mixed_history : forall b ops f st, wf_rfield b f = true -> forallb goperands_ok ops = true ->
+  gsteps_in_range (fst (rcontent f)) ops = true -> holds st (rtree_of f) ->
+  exists l' st',
+    g_ops ops (live_of f) = Some l' /\
+    run_ops fixed (gcompile_all ops) st = Ok st' /\
+    root_tree st' = Ok (ltree l') /\ root_text st' = Ok (rrender (norm l')) /\
+    wf_rfield b (norm l') = true /\
+    rcontent (norm l') = (fold_left gxstep ops (fst (rcontent f)), snd (rcontent f)) /\
+    exists a, parse_relaxed (rrender (norm l')) b = Ok (rtree_of (norm l'), 0) /\
+              racc (rtree_of (norm l')) = Ok a /\
+              racc_view a = (fold_left gxstep ops (fst (rcontent f)), snd (rcontent f)).
+Proof. exact g_history_any_field. Qed.
+Check C11_any_mixed_history : forall b ops f st, wf_rfield b f = true -> forallb goperands_ok ops = true ->
+  gsteps_in_range (fst (rcontent f)) ops = true -> holds st (rtree_of f) ->
+  exists l' st',
+    g_ops ops (live_of f) = Some l' /\
+    run_ops fixed (gcompile_all ops) st = Ok st' /\
+    root_tree st' = Ok (ltree l') /\ root_text st' = Ok (rrender (norm l')) /\
+    wf_rfield b (norm l') = true /\
+    rcontent (norm l') = (fold_left gxstep ops (fst (rcontent f)), snd (rcontent f)) /\
+    exists a, parse_relaxed (rrender (norm l')) b = Ok (rtree_of (norm l'), 0) /\
+              racc (rtree_of (norm l')) = Ok a /\
+              racc_view a = (fold_left gxstep ops (fst (rcontent f)), snd (rcontent f)).
+Print Assumptions C11_any_mixed_history.
+
+Theorem C11_any_mixed_history_from_text : forall ops f, wf_rfield true f = true -> forallb goperands_ok ops = true ->
+  gsteps_in_range (fst (rcontent f)) ops = true ->
+  exists st0 l' st',
+    init_state fixed (IRelaxed (rrender f)) = Ok st0 /\
+    g_ops ops (live_of f) = Some l' /\
+    run_ops fixed (gcompile_all ops) st0 = Ok st' /\
+    root_tree st' = Ok (ltree l') /\ root_text st' = Ok (rrender (norm l')) /\
+    wf_rfield true (norm l') = true /\
+    rcontent (norm l') = (fold_left gxstep ops (fst (rcontent f)), snd (rcontent f)) /\
+    exists a, parse_relaxed (rrender (norm l')) true = Ok (rtree_of (norm l'), 0) /\
+              racc (rtree_of (norm l')) = Ok a /\
+              racc_view a = (fold_left gxstep ops (fst (rcontent f)), snd (rcontent f)).
+Proof. exact g_history_from_text. Qed.
+Check C11_any_mixed_history_from_text : forall ops f, wf_rfield true f = true -> forallb goperands_ok ops = true ->
+  gsteps_in_range (fst (rcontent f)) ops = true ->
+  exists st0 l' st',
+    init_state fixed (IRelaxed (rrender f)) = Ok st0 /\
+    g_ops ops (live_of f) = Some l' /\
+    run_ops fixed (gcompile_all ops) st0 = Ok st' /\
+    root_tree st' = Ok (ltree l') /\ root_text st' = Ok (rrender (norm l')) /\
+    wf_rfield true (norm l') = true /\
+    rcontent (norm l') = (fold_left gxstep ops (fst (rcontent f)), snd (rcontent f)) /\
+    exists a, parse_relaxed (rrender (norm l')) true = Ok (rtree_of (norm l'), 0) /\
+              racc (rtree_of (norm l')) = Ok a /\
+              racc_view a = (fold_left gxstep ops (fst (rcontent f)), snd (rcontent f)).
+Print Assumptions C11_any_mixed_history_from_text.
+
 (* 2. Constructor-built fields read back as the list they were built from, and print canonically *)
 Theorem C11_structure_constructed : forall f, plain_field f = true -> structure (cfield_tree f) = Ok f.
 Proof. exact structure_cfield. Qed.
@@ -652,4 +737,28 @@ Example C11_any_ex :
   run_text fixed (IRelaxed (rrender f)) (compile_all ops) = Ok [32; 119; 32; 40; 62; 62; 32; 52; 41; 10; 32; 124; 32; 98; 58; 97; 110; 121; 32; 40; 60; 60; 32; 51; 41; 32; 44; 32; 36; 123; 120; 125; 44; 32; 44; 32; 99; 32; 91; 97; 109; 100; 54; 52; 93; 32; 60; 33; 112; 62; 32; 60; 113; 32; 33; 114; 62]%N /\
   option_map (fun l => rrender (norm l)) (a_ops ops (live_of f)) = Some [32; 119; 32; 40; 62; 62; 32; 52; 41; 10; 32; 124; 32; 98; 58; 97; 110; 121; 32; 40; 60; 60; 32; 51; 41; 32; 44; 32; 36; 123; 120; 125; 44; 32; 44; 32; 99; 32; 91; 97; 109; 100; 54; 52; 93; 32; 60; 33; 112; 62; 32; 60; 113; 32; 33; 114; 62]%N /\
   reads_clean [32; 119; 32; 40; 62; 62; 32; 52; 41; 10; 32; 124; 32; 98; 58; 97; 110; 121; 32; 40; 60; 60; 32; 51; 41; 32; 44; 32; 36; 123; 120; 125; 44; 32; 44; 32; 99; 32; 91; 97; 109; 100; 54; 52; 93; 32; 60; 33; 112; 62; 32; 60; 113; 32; 33; 114; 62]%N = true.
+Proof. vm_compute. repeat split; reflexivity. Qed.
+
+(* Non-vacuity of C11_any_mixed_history_from_text: the same field, operands parsed from texts
+   with odd white space (" e( =1:2 )\t\n | g ", "z :any ", " w  ", "\nd", "x |y"):
+     " e( =1:2 ), w\n | b:any  | z :any , ${x}, , x |y (<< 3), d" *)
+Example C11_any_parsed_ex :
+  let sp := [32%N] in
+  let r1 := mk_rel [97%N] None (Some (mk_vclause [32;32]%N [] RelAcc.VGe sp None [49%N] [] [])) None [] [10;32]%N in
+  let r2 := mk_rel [98%N] (Some (mk_qual [] [] [97;110;121]%N)) None None [] sp in
+  let r3 := mk_rel [99%N] None None (Some (mk_group sp [mk_term [] false [97;109;100;54;52]%N] []))
+                   [mk_group sp [mk_term [] true [112%N]] []] [] in
+  let f := mk_rfield sp (IEntry r1 [(sp, r2)]) [(sp, ISubst [120%N] [] []); (sp, IEmpty); (sp, IEntry r3 []); ([], IEmpty)] in
+  let nm s tr := mk_rel s None None None [] tr in
+  let ops := [GP (PInsert 0 sp (mk_rel [101%N] None (Some (mk_vclause [] sp RelAcc.VEq [] (Some [49%N]) [50%N] [] sp)) None [] [9%N])
+                          [([10;32]%N, nm [103%N] sp)]);
+              GP (PEPush 1 [] (mk_rel [122%N] (Some (mk_qual sp [] [97;110;121]%N)) None None [] sp));
+              GP (PEReplace 1 0 sp (nm [119%N] [32;32]%N));
+              GP (PPush [10%N] (nm [100%N] []) []);
+              GP (PReplace 2 [] (nm [120%N] sp) [([], nm [121%N] [])]);
+              GA (ARemoveRelation 0 1); GA (ASetVersion 2 1 (Some (VLt, [51%N])))] in
+  wf_rfield true f = true /\ forallb goperands_ok ops = true /\ gsteps_in_range (fst (rcontent f)) ops = true /\
+  run_text fixed (IRelaxed (rrender f)) (gcompile_all ops) = Ok [32; 101; 40; 32; 61; 49; 58; 50; 32; 41; 44; 32; 119; 10; 32; 124; 32; 98; 58; 97; 110; 121; 32; 32; 124; 32; 122; 32; 58; 97; 110; 121; 32; 44; 32; 36; 123; 120; 125; 44; 32; 44; 32; 120; 32; 124; 121; 32; 40; 60; 60; 32; 51; 41; 44; 32; 100]%N /\
+  option_map (fun l => rrender (norm l)) (g_ops ops (live_of f)) = Some [32; 101; 40; 32; 61; 49; 58; 50; 32; 41; 44; 32; 119; 10; 32; 124; 32; 98; 58; 97; 110; 121; 32; 32; 124; 32; 122; 32; 58; 97; 110; 121; 32; 44; 32; 36; 123; 120; 125; 44; 32; 44; 32; 120; 32; 124; 121; 32; 40; 60; 60; 32; 51; 41; 44; 32; 100]%N /\
+  reads_clean [32; 101; 40; 32; 61; 49; 58; 50; 32; 41; 44; 32; 119; 10; 32; 124; 32; 98; 58; 97; 110; 121; 32; 32; 124; 32; 122; 32; 58; 97; 110; 121; 32; 44; 32; 36; 123; 120; 125; 44; 32; 44; 32; 120; 32; 124; 121; 32; 40; 60; 60; 32; 51; 41; 44; 32; 100]%N = true.
 Proof. vm_compute. repeat split; reflexivity. Qed.
